@@ -19,6 +19,7 @@
 package c07
 
 import (
+	"context"
 	"encoding/xml"
 	"errors"
 	"fmt"
@@ -26,13 +27,17 @@ import (
 	"math/rand"
 	"strconv"
 	"strings"
+	"time"
 
 	"mellium.im/xmlstream"
 	"mellium.im/xmpp"
+	"mellium.im/xmpp/jid"
 	"mellium.im/xmpp/mux"
 	"mellium.im/xmpp/stanza"
 	"mellium.im/xmpp/stream"
+	"mellium.im/xmpp/websocket"
 
+	"mellium.im/xmpp/verifharness/bufconn"
 	"mellium.im/xmpp/verifharness/core"
 	"mellium.im/xmpp/verifharness/sess"
 	"mellium.im/xmpp/verifharness/xmltree"
@@ -78,8 +83,9 @@ type Scenario struct {
 	S2S      bool      `json:"s2s"`
 	Received bool      `json:"received"`
 	Local    string    `json:"local,omitempty"`
-	Mode     string    `json:"mode"`  // bare | mux-reg | mux-unreg
-	Input    []string  `json:"input"` // raw top-level elements (and white space) sent by the peer
+	WS       bool      `json:"ws,omitempty"` // a session negotiated with the WebSocket subprotocol (websocket.NewSession); c2s, initiated
+	Mode     string    `json:"mode"`         // bare | mux-reg | mux-unreg | serve-nil (Serve(nil): the programs are not used)
+	Input    []string  `json:"input"`        // raw top-level elements (and white space) sent by the peer
 	Programs []Program `json:"programs"`
 	// Collision, when set, turns the case into the concurrent id-collision
 	// scenario (Input and Programs then describe the colliding request and the
@@ -331,7 +337,7 @@ func genProgram(r *rand.Rand, streamNS string) Program {
 		}
 		p.Writes = append(p.Writes, w)
 	}
-	switch x := r.Intn(22); {
+	switch x := r.Intn(23); {
 	case x < 15:
 		p.Ret = "nil"
 	case x < 17:
@@ -342,6 +348,9 @@ func genProgram(r *rand.Rand, streamNS string) Program {
 		p.Ret = "stanzaerr"
 	case x < 20:
 		p.Ret = "stanzaerr-wrapped"
+	case x < 21:
+		// errors that wrap a sentinel: none of them is the end of the stream
+		p.Ret = pick(r, "wrap-eof", "wrap-eof", "wrap-unexpected-eof", "wrap-closed-pipe", "wrap-err")
 	default:
 		p.Ret = "eof"
 		// one misbehaviour at a time: a program that returns io.EOF does not also
@@ -363,6 +372,12 @@ func gen(r *rand.Rand) Scenario {
 		sc.Local = pick(r, "juliet@example.com/x", "me@example.net")
 	}
 	sc.Mode = pick(r, "bare", "mux-reg", "mux-unreg")
+	if r.Intn(20) == 0 {
+		sc.Mode = "serve-nil"
+	}
+	if r.Intn(8) == 0 {
+		sc.WS, sc.S2S, sc.Received = true, false, false
+	}
 	o := sess.Opts{S2S: sc.S2S, Received: sc.Received, Local: sc.Local}
 	local := o.Local
 	if local == "" {
@@ -372,7 +387,7 @@ func gen(r *rand.Rand) Scenario {
 			local = "me@example.net/lib"
 		}
 	}
-	if r.Intn(200) == 0 {
+	if r.Intn(200) == 0 && !sc.WS && sc.Mode != "serve-nil" {
 		genCollision(r, &sc, o.NS())
 		return sc
 	}
@@ -384,10 +399,40 @@ func gen(r *rand.Rand) Scenario {
 		if r.Intn(6) == 0 {
 			sc.Input = append(sc.Input, pick(r, " ", "\n", "\t\r\n "))
 		}
-		sc.Input = append(sc.Input, genStanzaRaw(r, o, i+1, local))
+		raw := genStanzaRaw(r, o, i+1, local)
+		if sc.WS {
+			raw = wsFrame(raw)
+		}
+		sc.Input = append(sc.Input, raw)
 		sc.Programs = append(sc.Programs, genProgram(r, o.NS()))
 	}
+	if sc.WS {
+		// the peer's close frame ends the input (on this tree it is dispatched
+		// like an element: it gets a program that does nothing)
+		sc.Input = append(sc.Input, wsClose)
+		sc.Programs = append(sc.Programs, Program{Ret: "nil"})
+	}
 	return sc
+}
+
+const (
+	nsFraming = "urn:ietf:params:xml:ns:xmpp-framing"
+	wsClose   = `<close xmlns='` + nsFraming + `'/>`
+)
+
+// wsFrame gives a top-level element without its own default namespace the
+// declaration xmlns='jabber:client' (frames do not inherit one from a header).
+func wsFrame(raw string) string {
+	end := strings.IndexAny(raw, ">")
+	if end < 0 {
+		return raw
+	}
+	tag := raw[:end]
+	if strings.Contains(tag, " xmlns='") || strings.Contains(tag, ` xmlns="`) {
+		return raw
+	}
+	i := strings.IndexAny(raw, " />")
+	return raw[:i] + " xmlns='jabber:client'" + raw[i:]
 }
 
 const sentinelID = "c07-sentinel"
@@ -603,6 +648,14 @@ func (st *runState) exec(rw xmlstream.TokenReadEncoder) error {
 		return stanza.Error{Type: stanza.Wait, Condition: stanza.InternalServerError}
 	case "stanzaerr-wrapped":
 		return fmt.Errorf("c07: handler failed: %w", stanza.Error{Type: stanza.Modify, Condition: stanza.NotAcceptable})
+	case "wrap-eof":
+		return fmt.Errorf("c07: decoding payload: %w", io.EOF)
+	case "wrap-unexpected-eof":
+		return fmt.Errorf("c07: decoding payload: %w", io.ErrUnexpectedEOF)
+	case "wrap-closed-pipe":
+		return fmt.Errorf("c07: writing: %w", io.ErrClosedPipe)
+	case "wrap-err":
+		return fmt.Errorf("c07: wrapped: %w", errProgram)
 	case "eof":
 		return io.EOF
 	}
@@ -668,9 +721,19 @@ func fromClass(f string) string {
 
 // ---------------------------------------------------------------------------
 
+func modeKeyOf(sc Scenario) string {
+	if sc.WS {
+		return "ws-" + modeKey(sc.Mode)
+	}
+	return modeKey(sc.Mode)
+}
+
 func modeKey(m string) string {
-	if m == "bare" {
+	switch m {
+	case "bare":
 		return "bare"
+	case "serve-nil":
+		return "nil"
 	}
 	return "mux"
 }
@@ -680,10 +743,17 @@ func modeKey(m string) string {
 func build(c *core.Case, sc Scenario) (p *sess.Pair, st *runState, outer xmpp.Handler, ok bool) {
 	o := sess.Opts{S2S: sc.S2S, Received: sc.Received, Local: sc.Local}
 	var err error
-	p, err = sess.NewPair(o)
+	if sc.WS {
+		p, err = newWSPair(o)
+	} else {
+		p, err = sess.NewPair(o)
+	}
 	if err != nil {
 		c.Notef("session setup failed: %v", err)
 		c.Count("setup_failed", 1)
+		if sc.WS {
+			c.Inconclusive("websocket session setup failed: %v", err)
+		}
 		return nil, nil, nil, false
 	}
 	o = p.Opts
@@ -779,7 +849,35 @@ func build(c *core.Case, sc Scenario) (p *sess.Pair, st *runState, outer xmpp.Ha
 		st.invoked[st.cur] = true
 		return inner.HandleXMPP(rw, start)
 	})
+	if sc.Mode == "serve-nil" {
+		outer = nil
+	}
 	return p, st, outer, true
+}
+
+// newWSPair negotiates a client session that uses the WebSocket subprotocol
+// (RFC 7395) through websocket.NewSession over canned peer input: an <open/>
+// frame and an empty feature list.
+func newWSPair(o sess.Opts) (*sess.Pair, error) {
+	if o.Local == "" {
+		o.Local = "me@example.net/lib"
+	}
+	o.S2S, o.Received = false, false
+	origin, err := jid.Parse(o.Local)
+	if err != nil {
+		return nil, err
+	}
+	o.Remote = origin.Domain().String()
+	lib, peer := bufconn.Pipe()
+	peer.Write([]byte(`<open xmlns='` + nsFraming + `' from='` + o.Remote + `' id='peerhdr' version='1.0'/>` +
+		`<stream:features xmlns:stream='` + sess.NSStream + `'/>`))
+	ctx, cancel := context.WithTimeout(context.Background(), 20*time.Second)
+	defer cancel()
+	s, err := websocket.NewSession(ctx, origin, lib)
+	if err != nil {
+		return nil, err
+	}
+	return &sess.Pair{S: s, Lib: lib, Peer: peer, Opts: o}, nil
 }
 
 // Run executes one scenario and judges it.
@@ -796,7 +894,9 @@ func Run(c *core.Case, sc Scenario) {
 	input := st.input
 
 	p.Send(input)
-	p.ClosePeer()
+	if !sc.WS {
+		p.ClosePeer()
+	}
 	p.Peer.CloseWrite()
 	var serveErr error
 	if c.Guard("Serve", func() { serveErr = p.S.Serve(outer) }) {
@@ -804,6 +904,9 @@ func Run(c *core.Case, sc Scenario) {
 	}
 	c.Count("streams", 1)
 	c.Count("mode_"+sc.Mode, 1)
+	if sc.WS {
+		c.Count("session_websocket", 1)
+	}
 	if st.mismatch {
 		// dispatch order/identity is C08's subject; C07 cannot attribute replies here
 		c.Count("dispatch_mismatch_unjudged", 1)
@@ -819,6 +922,24 @@ func Run(c *core.Case, sc Scenario) {
 func judge(c *core.Case, sc Scenario, o sess.Opts, st *runState, written []byte, serveErr error, ownRequest func(*xmltree.Node) bool) {
 	ns := o.NS()
 	wire := xmltree.ParseStream(written, true)
+	if sc.WS {
+		// frames: <open/>, top-level elements, then the closing the session wrote
+		// (a <close/> frame or, on this tree, a bare </stream:stream>)
+		all := strings.TrimSpace(string(written))
+		b := strings.TrimSuffix(all, "</stream:stream>")
+		fr := xmltree.ParseStream([]byte(b), false)
+		wire = &xmltree.Stream{Err: fr.Err, Trailing: fr.Trailing, Closed: len(b) != len(all)}
+		for _, e := range fr.Elems {
+			switch {
+			case e.Name.Space == nsFraming && e.Name.Local == "open":
+				wire.Header = e
+			case e.Name.Space == nsFraming:
+				wire.Closed = true
+			default:
+				wire.Elems = append(wire.Elems, e)
+			}
+		}
+	}
 	if wire.Err != nil || wire.Trailing || wire.Header == nil {
 		c.Violate("oracle:wire-unparseable", "cannot parse what the library wrote: err=%v trailing=%v\n%s", wire.Err, wire.Trailing, written)
 		return
@@ -872,15 +993,30 @@ func judge(c *core.Case, sc Scenario, o sess.Opts, st *runState, written []byte,
 	if sc.Collision != nil {
 		lastInvoked = len(st.exp) - 1 // the barrier showed that the serve loop read them all
 	}
+	if sc.Mode == "serve-nil" {
+		// no handler to tell which elements were read: when Serve ended without an
+		// error it read them all, otherwise nothing is judged
+		if serveErr != nil {
+			c.Count("serve_nil_ended_with_error_unjudged", 1)
+			return
+		}
+		lastInvoked = len(st.exp) - 1
+	}
 	used := make([]bool, len(lib))
 
 	for i, n := range st.exp {
 		cl := classes[i]
 		prog := sc.Programs[i]
 		c.Count("stanzas_"+cl.Name, 1)
+		if strings.HasPrefix(st.rets[i], "wrap-") {
+			c.Count("handler_returned_wrapping_error", 1)
+			if st.rets[i] == "wrap-eof" && cl.Constrained {
+				c.Count("request_handler_returned_wrapped_eof", 1)
+			}
+		}
 		if strings.HasPrefix(st.rets[i], "stanzaerr") && strings.HasPrefix(cl.Name, "iq-") {
 			c.Count("iq_handler_returned_stanza_error", 1)
-			c.Count("iq_handler_returned_stanza_error_"+modeKey(sc.Mode), 1)
+			c.Count("iq_handler_returned_stanza_error_"+modeKeyOf(sc), 1)
 		}
 		if i > lastInvoked {
 			c.Count("never_dispatched", 1)
@@ -960,6 +1096,8 @@ func judge(c *core.Case, sc Scenario, o sess.Opts, st *runState, written []byte,
 					return "handler-reply-lost"
 				case sc.Collision != nil:
 					return "id-collision"
+				case st.rets[i] == "wrap-eof":
+					return "handler-wrapped-eof"
 				case st.rets[i] == "eof":
 					return "handler-eof"
 				case sc.Mode != "bare" && !cl.HasPayload:
@@ -981,17 +1119,23 @@ func judge(c *core.Case, sc Scenario, o sess.Opts, st *runState, written []byte,
 			case hReplies > 0:
 				c.Count("answered_by_handler", 1)
 				if hDup > 0 {
-					c.Violate("reply:double:"+modeKey(sc.Mode)+":handler-reply-duplicated", "an element the handler wrote once for %s (id %q) is on the wire more than once\nwire: %s", cl.Name, cl.ID, wireStr(wire))
+					c.Violate("reply:double:"+modeKeyOf(sc)+":handler-reply-duplicated", "an element the handler wrote once for %s (id %q) is on the wire more than once\nwire: %s", cl.Name, cl.ID, wireStr(wire))
 				}
 				if libReplies > 0 {
-					c.Violate("reply:double:"+modeKey(sc.Mode)+":handler-replied", "%s id %q: the handler wrote its own reply and the library added %d more\nwire: %s", cl.Name, cl.ID, libReplies, wireStr(wire))
+					c.Violate("reply:double:"+modeKeyOf(sc)+":handler-replied", "%s id %q: the handler wrote its own reply and the library added %d more\nwire: %s", cl.Name, cl.ID, libReplies, wireStr(wire))
 				}
 			case libReplies == 0:
-				c.Violate("reply:missing:"+modeKey(sc.Mode)+":"+cause(), "%s id %q (mode %s, program %+v): no reply IQ (type result/error, that id) on the wire and Serve returned %v\nwire: %s", cl.Name, cl.ID, sc.Mode, prog, serveErr, wireStr(wire))
+				c.Violate("reply:missing:"+modeKeyOf(sc)+":"+cause(), "%s id %q (mode %s, program %+v): no reply IQ (type result/error, that id) on the wire and Serve returned %v\nwire: %s", cl.Name, cl.ID, sc.Mode, prog, serveErr, wireStr(wire))
 			case libReplies > 1:
-				c.Violate("reply:double:"+modeKey(sc.Mode)+":library-twice", "%s id %q: the library added %d replies\nwire: %s", cl.Name, cl.ID, libReplies, wireStr(wire))
+				c.Violate("reply:double:"+modeKeyOf(sc)+":library-twice", "%s id %q: the library added %d replies\nwire: %s", cl.Name, cl.ID, libReplies, wireStr(wire))
 			default:
 				c.Count("answered_by_library", 1)
+				if sc.WS {
+					c.Count("ws_answered_by_library", 1)
+				}
+				if sc.Mode == "serve-nil" {
+					c.Count("serve_nil_answered_by_library", 1)
+				}
 				if sc.Mode == "mux-unreg" {
 					c.Count("answered_by_mux_fallback_or_session", 1)
 				}
@@ -1005,7 +1149,7 @@ func judge(c *core.Case, sc Scenario, o sess.Opts, st *runState, written []byte,
 					return x.Name.Space == nsStanzaErr && x.Name.Local == "service-unavailable"
 				})
 				if rep.Attr("type") != "error" || su == nil {
-					c.Violate("reply:shape:"+modeKey(sc.Mode), "%s id %q: the library's reply is not a service-unavailable error: %s", cl.Name, cl.ID, rep)
+					c.Violate("reply:shape:"+modeKeyOf(sc), "%s id %q: the library's reply is not a service-unavailable error: %s", cl.Name, cl.ID, rep)
 				}
 				from := n.Attr("from")
 				if from != "" {
@@ -1017,7 +1161,7 @@ func judge(c *core.Case, sc Scenario, o sess.Opts, st *runState, written []byte,
 					case from == own && to == "":
 						c.Count("reply_to_own_bare_unaddressed", 1)
 					default:
-						c.Violate("reply:to:"+modeKey(sc.Mode)+":"+fromClass(from), "%s id %q from %q: the library's reply is addressed to %q: %s", cl.Name, cl.ID, from, to, rep)
+						c.Violate("reply:to:"+modeKeyOf(sc)+":"+fromClass(from), "%s id %q from %q: the library's reply is addressed to %q: %s", cl.Name, cl.ID, from, to, rep)
 					}
 				}
 			}
@@ -1145,7 +1289,7 @@ func Prop() *core.Prop {
 	return &core.Prop{
 		ID:    "C07",
 		Level: core.Exploration,
-		Rule:  "a case is one pre-loaded stream of 1-4 PRNG-built top-level elements (IQ of every type/id/from/to/payload shape, message, presence, others; client and server namespaces) served single-threaded by Session.Serve with one interpreted handler program per element (reads none/part/all; writes 0-3 marked elements out of 15 kinds through EncodeToken, xmlstream.Copy or Encode; returns nil, an error, a stream error, a stanza.Error plain or wrapped, or io.EOF), directly, behind mux.ServeMux with the program registered for the payload, and behind it with nothing registered. The wire is re-parsed independently; unmarked top-level elements are the library's additions and are attributed to requests by id. One case in 200 is a concurrent id-collision scenario instead: Serve on its own goroutine, a requester goroutine with a pending SendIQ/SendIQElement/UnmarshalIQ/SendMessage/SendPresence of id X, the peer sends a get/set IQ with the same id X and a sentinel ping, waits for the ping's reply, then sends the real response and the closing tag; the usual reply rule is applied to the colliding request, which must also reach the handler, and the requester must get the response and not the request. Distinct = distinct (mode, s2s, stanza class, payload present, written kinds, read class, return, additions, outcome).",
+		Rule:  "a case is one pre-loaded stream of 1-4 PRNG-built top-level elements (IQ of every type/id/from/to/payload shape, message, presence, others; client and server namespaces) served single-threaded by Session.Serve with one interpreted handler program per element (reads none/part/all; writes 0-3 marked elements out of 15 kinds through EncodeToken, xmlstream.Copy or Encode; returns nil, an error, a stream error, a stanza.Error plain or wrapped, io.EOF, or an error wrapping io.EOF / io.ErrUnexpectedEOF / io.ErrClosedPipe / its own error); one stream in 20 is served with Serve(nil); one session in 8 is negotiated with the WebSocket subprotocol through websocket.NewSession (frames, stanzas declare jabber:client, the peer ends with a close frame), directly, behind mux.ServeMux with the program registered for the payload, and behind it with nothing registered. The wire is re-parsed independently; unmarked top-level elements are the library's additions and are attributed to requests by id. One case in 200 is a concurrent id-collision scenario instead: Serve on its own goroutine, a requester goroutine with a pending SendIQ/SendIQElement/UnmarshalIQ/SendMessage/SendPresence of id X, the peer sends a get/set IQ with the same id X and a sentinel ping, waits for the ping's reply, then sends the real response and the closing tag; the usual reply rule is applied to the colliding request, which must also reach the handler, and the requester must get the response and not the request. Distinct = distinct (mode, s2s, stanza class, payload present, written kinds, read class, return, additions, outcome).",
 		Assumptions: []string{
 			"the exception 'unless the stream itself is terminated with a stream error' is read as: Serve returned a non-nil error while handling that element (DESIGN.md C07); the stream-error bytes themselves are only counted",
 			"IQs without id or with an empty id, with a type outside get/set/result/error, or named iq in the other stanza namespace are unconstrained",
@@ -1165,6 +1309,8 @@ func Prop() *core.Prop {
 			"must_not_be_answered", "requests_exempt_stream_ended_with_error", "reply_addressed_to_sender",
 			"collision_cases", "collision_barrier_reached", "collision_own_request_on_wire", "collision_request_reached_handler", "collision_requester_got_response",
 			"collision_via_SendIQ", "collision_via_SendIQElement", "collision_via_UnmarshalIQ", "collision_via_SendMessage", "collision_via_SendPresence",
+			"session_websocket", "ws_answered_by_library", "mode_serve-nil", "serve_nil_answered_by_library",
+			"handler_returned_wrapping_error", "request_handler_returned_wrapped_eof",
 			"iq_handler_returned_stanza_error_bare", "iq_handler_returned_stanza_error_mux",
 			"stanzas_iq-get", "stanzas_iq-set", "stanzas_iq-result", "stanzas_iq-error", "stanzas_message", "stanzas_presence", "stanzas_other",
 		},
